@@ -66,6 +66,28 @@ fn main() {
                 eprintln!("  {} evals={} violation={:?}", r.workload, r.evals, r.violation.map(|v| v.signature));
             }
         }
+        "debug-c01" => {
+            for a in &args[2..] {
+                let i: u64 = a.parse().unwrap();
+                eprintln!("c01 run {}", i);
+                marsim::props::c01::debug_one(1, i);
+            }
+        }
+        "eval" => {
+            let mut sim = marsim::kernel::Sim::new(&marsim::kernel::Knobs::default(), marsim::kernel::GcPlan::None, marsim::kernel::SlicePlan::None, 0);
+            let mut m = marsim::refscheme::machine::Machine::new();
+            for t in &args[2..] {
+                let o = sim.eval_form(t);
+                println!("marwood: {} out={:?}", o.outcome.brief(), o.output.iter().map(|e| e.value.show()).collect::<Vec<_>>());
+                match marsim::sx::read_one(t) {
+                    Ok(sx) => {
+                        let r = m.run_form(&sx);
+                        println!("ref:     {:?} out={:?}", r.outcome, r.output.iter().map(|e| e.value.show()).collect::<Vec<_>>());
+                    }
+                    Err(e) => println!("ref: unreadable {}", e),
+                }
+            }
+        }
         "replay" => {
             let f = args.get(2).cloned().unwrap_or_else(|| usage());
             std::process::exit(marsim::props::replay_file(Path::new(&f)));
